@@ -8,6 +8,10 @@
 KFAMILIES = {
     "K-claim": {"filters": ["query::view::claim::verif_kani::"], "bounded": None,
                 "note": "finite domain (3 claims per position, lists of length <= 3): complete"},
+    "K-col": {"filters": ["archetype::verif_kani::col_"], "bounded": "rows <= 3, registry K3 = (Z zero-sized+Drop, S u8, T 16-aligned Drop/Clone-tracked), archetype shapes fixed per harness; payloads and row indices symbolic",
+              "note": "contract harnesses of the real column store through Archetype operations, with CBMC's memory model and a ghost drop ledger"},
+    "K-alloc": {"filters": ["entity::allocator::verif_kani::pair_"], "bounded": "<= 3 slots, 6 allocator shapes, batches of 0..=3; generations and rows symbolic",
+                "note": "bounded twins of the V-alloc contracts; referee only, never counted as proof"},
 }
 
 PROPS = {
@@ -32,6 +36,32 @@ PROPS = {
         "level_text": "Unbounded proof (Verus/Z3) that every allocator operation preserves the representation invariant wf: every free index is in bounds and names an inactive slot, no index is listed twice, and every inactive slot is listed (none lost) -- for all free-list lengths, batch sizes and histories, because the invariant is proved inductive per operation from a symbolic state.",
         "level_note": "Assumes vstd's specs of Vec/VecDeque/Range/Option and the extraction rules. The archetype side of the correspondence (rows <-> slots, one table per component set) is decided by units V-arch / V-world / V-archs when built; until then listed in coverage.not_covered.",
         "not_covered": ["row <-> slot bijection across archetypes (V-arch, V-world)", "single table per component set (Archetypes lookup tables, hashbrown)"],
+    },
+    "C04": {
+        "level": "other",
+        "v": [],
+        "k": ["K-col"],
+        "k_thorough": [],
+        "assumptions": ["A2", "A6", "A7", "A8"],
+        "technique": "contract checking with Kani on the real column store: contract harnesses (documented safety precondition assumed, postcondition asserted) with a ghost drop ledger, bounded rows/registry",
+        "level_text": "Bounded contract checking (Kani/CBMC, exhaustive over payloads, row indices and the listed table shapes; rows <= 3, registry K3). Each harness calls the real Archetype/column functions under their documented preconditions and asserts, through a ghost ledger written by the components' own Drop/Clone, that every value is dropped exactly once and at the moment the property names: remove drops the removed row only, set_component drops the old value only, a shape change drops nothing except the component detached by Entry::remove, clear drops all, clone/clone_from produce independently owned values and drop what they replace, dropping the table drops the rest. Includes zero-sized and over-aligned components.",
+        "level_note": "Not a proof: uniformity in row count and registry shape is not shown (A7). Resources and whole-world drop order are plain ownership of safe fields (A8). The serde paths are covered under C11 when built.",
+        "explanation": "K-col harnesses: see coverage.kani for per-harness CBMC check counts; bounds in coverage.kani_families",
+        "bounded": ["rows <= 3", "registry K3 = (Z, S, T)", "table shapes fixed per harness"],
+        "not_covered": ["deserialization error paths (C11)", "World-level drop order (safe Rust ownership)"],
+    },
+    "C05": {
+        "level": "other",
+        "v": ["arch"],
+        "k": ["K-col"],
+        "k_thorough": [],
+        "assumptions": ["A1", "A2", "A5", "A6", "A7"],
+        "technique": "assume/guarantee contracts: Verus proves every call into unsafe code meets the callee's documented safety precondition (index bounds, from_raw_parts length, live identifier); Kani checks the unsafe callees are memory-safe under that precondition (CBMC memory model), bounded",
+        "level_text": "Two-sided contract argument. (1) Verus, unbounded: in the extracted allocator and archetype functions every get_unchecked / unwrap_unchecked / from_raw_parts length argument is a discharged proof obligation, and every call of an unsafe callee is checked against that callee's `# Safety` text stated as `requires`. (2) Kani, bounded (rows <= 3, registry K3 with zero-sized, 1-byte and 16-aligned drop-tracked columns): the real column functions run under CBMC's memory model -- out-of-bounds or dangling dereference, double free, dealloc with a size different from the allocation, reinterpretation of a cell as another component type (the ledger's id check) all fail a check.",
+        "level_note": "Bounded on the raw-memory side (A7); Kani does not model allocation alignment or realloc old-size (A6). hashbrown-backed lookups (Archetypes) are outside both engines. View construction (registry/sealed/view.rs) is covered under C03 when built.",
+        "explanation": "V unit arch (index/unwrap/raw-parts obligations) + K-col harnesses under CBMC memory model",
+        "bounded": ["rows <= 3", "registry K3 = (Z, S, T)"],
+        "not_covered": ["src/archetypes/mod.rs lookup tables (hashbrown)", "par_view.rs (rayon)", "view.rs (see C03)"],
     },
     "C08": {
         "level": "proof",
